@@ -659,8 +659,14 @@ fn emit_sg(st: &mut Stream, c: &SCase, gen: serde_json::Value) {
     )];
     if let (Ok(Ok(_)), Ok(xs), Ok(ys)) = (&built, &xs, &ys) {
         terms.push(format!(
-            "line_sgs {} {} {} {} {} {}",
+            "line_sgs {} {} {} {} {} {} {} {} {} {} {} {}",
             id,
+            coq_f64(c.s_lo),
+            coq_f64(c.s_hi),
+            coq_nat(c.s_bins),
+            coq_f64(c.g_lo),
+            coq_f64(c.g_hi),
+            coq_nat(c.g_bins),
             coq_fl(xs),
             coq_fl(ys),
             coq_fll(&tab),
